@@ -143,13 +143,19 @@ class Mon(object):
             if kind == "panic":
                 self.viol("%s:panic:%s" % (fn, fam), line, "panicked inside the guaranteed domain: %s" % res)
             elif kind == "limit":
-                st.bump("aborted_by_iteration_limit")
+                self.viol("%s:no-return-within-iteration-limit:%s" % (fn, fam), line,
+                          "the call did not return inside the guaranteed domain: aborted by the hook (%s)" % res)
             return
         if kind == "panic":
             self.viol("%s:panic:%s" % (fn, fam), line, "Result-returning function panicked: %s" % res)
             return
         if kind == "limit":
-            st.bump("aborted_by_iteration_limit(powi)" if fn == "powi" else "aborted_by_iteration_limit")
+            if fn == "powi":
+                st.bump("aborted_by_iteration_limit(powi)")   # linear in |n| by design: capped by the harness, not judged
+            else:
+                # totality: the call neither returned Ok nor Err within 16x the C17 work bound (the hook aborted it)
+                self.viol("%s:no-return-within-iteration-limit:%s" % (fn, fam), line,
+                          "the call did not return: aborted by the hook after 16x(4*width+64) loop iterations (%s)" % res)
             return
         # mathematically undefined requests must be Err
         if fn == "sqrt" and X < 0 and kind != "err":
